@@ -319,12 +319,12 @@ func searchOps(o *Out, seed uint64, n int, tier string, corpus string) {
 			segs = append(segs, fmt.Sprintf("%s %d %s %d -1", g.pos, len(g.moves), strings.Join(g.moves, " "), 1+rng.Intn(4)))
 		}
 		cancel := -1
-		switch rng.Intn(4) {
-		case 0:
-			cancel = rng.Intn(6)
-		case 1:
-			cancel = rng.Intn(600)
-		case 2:
+		switch rng.Intn(6) {
+		case 0, 1:
+			cancel = rng.Intn(6) // an immediate timeout / a stop right after go: the fallback answers
+		case 2, 3:
+			cancel = rng.Intn(600) // inside the second or third iteration
+		case 4:
 			cancel = rng.Intn(5000)
 		}
 		segs = append(segs, fmt.Sprintf("%s %d %s %d %d", g.pos, len(g.moves), strings.Join(g.moves, " "), 1+rng.Intn(4), cancel))
